@@ -85,6 +85,8 @@ def h_malformed():
         "unknown-component": good.replace("BEGIN:STANDARD", "BEGIN:WEIRD", 1).replace("END:STANDARD", "END:WEIRD", 1),
         "unknown-property": good.replace("TZNAME:EST", "FOO:EST"),
         "no-components": "BEGIN:VTIMEZONE\r\nTZID:X\r\nEND:VTIMEZONE\r\n",
+        "second-zone-no-tzid": good + good.replace("TZID:Test/Zone\r\n", ""),
+        "third-zone-no-tzid": good + good.replace("Test/Zone", "Other") + good.replace("TZID:Test/Zone\r\n", ""),
     }
     names = sorted(bad)
     types = dict(i=int)
@@ -144,7 +146,11 @@ def cells(tier):
     variants = ("rrule", "rdate", "swapped") if q else ("rrule", "rdate", "swapped", "folded", "two")
     for spec in (sp[:3] if q else sp):
         for v in variants:
-            for y in years:
+            ys = list(years)
+            northern = P._rule_day_ordinal(spec["start"], 1971) < P._rule_day_ordinal(spec["end"], 1971)
+            if northern and v in ("rdate", "rrule"):
+                ys = [1970] + ys          # the year of the first onsets (before them the first STANDARD component applies, as POSIX standard time)
+            for y in ys:
                 for wm in (False, True):
                     cs.append(Cell(M, "h_rule", dict(kind="tzical:" + v, spec=spec, year=y, wallmode=wm),
                                    name="tzical:%s[%s]@%d%s" % (v, P.render(spec), y, "/wall" if wm else "/utc"),
